@@ -168,7 +168,8 @@ class GridKernel(Kernel):
                     covar = KroneckerProductLinearOperator(*self._kronecker_order(covars))
 
             if not self.training:
-                self._cached_kernel_mat = covar
+                # (a cache that keeps its autograd graph cannot be back-propagated through by more than one prediction)
+                self._cached_kernel_mat = covar.detach() if settings.detach_test_caches.on() else covar
 
             return covar
         else:
